@@ -231,6 +231,11 @@ PREDICATES = {
     'even': lambda x: isinstance(x, int) and not isinstance(x, bool) and x % 2 == 0,
     'never': lambda x: False,
     'always': lambda x: True,
+    # (round 8) predicates that would hold for a value that is not an OSC
+    # argument at all (None): only ever evaluated here on message arguments
+    'not3': lambda x: x != 3,
+    'falsy': lambda x: not x,
+    'lt5': lambda x: isinstance(x, (int, float)) and not isinstance(x, bool) and x < 5,
 }
 
 
@@ -242,7 +247,11 @@ def template_verdict(template, args):
     value, a function is evaluated with the value and must return a bool.  For
     positions the message does not have, a value item has nothing it could
     equal (reject); None / function items are left open (either), as the
-    documentation does not say."""
+    documentation does not say whether such a responder responds.  (What the
+    documentation does decide for function items - 'evaluated with the
+    corresponding message's value at the same position' - is monitored on the
+    real side: a predicate is never evaluated with anything but the argument of
+    the message at its position, see c18_hist.check_predicate_calls.)"""
     if template is None:
         return 'accept'
     verdict = 'accept'
